@@ -30,7 +30,7 @@ for pr in props:
 status = "\n".join(rows)
 
 srows = ["| property | change (file) | needs to manifest | verdict of the check |", "|---|---|---|---|"]
-WAVES = {"second": " (2nd)", "third": " (3rd)", "fourth": " (4th)", "fifth": " (5th)", "sixth": " (6th)", "seventh": " (7th)", "eighth": " (8th)"}
+WAVES = {"second": " (2nd)", "third": " (3rd)", "fourth": " (4th)", "fifth": " (5th)", "sixth": " (6th)", "seventh": " (7th)", "eighth": " (8th)", "ninth": " (9th)"}
 for d in sorted(glob.glob(os.path.join(ROOT, "seeded", "C*")) + [x for w in WAVES for x in glob.glob(os.path.join(ROOT, "seeded", "C*", w))]):
     mf = os.path.join(d, "meta.json")
     if not os.path.exists(mf):
